@@ -798,7 +798,7 @@ def judge_call(case, rec: Recorder | None = None, prefix='ref') -> list[Disc]:
     if not verdict:
         return discs
     base = f'C09/{fn}/{_vgroup(ver)}/{cls}'
-    if cls == 'coll-html+non-ascii-case':
+    if cls.startswith('coll-html+non-ascii-case'):
         base = f'C09/coll-html/non-ascii-case/{fn}'
     try:
         res = _evaluate(ver, expr, variables)
